@@ -47,8 +47,13 @@ impl<K: KeyT, V: ValT> MapWorld<K, V> {
         let plan = IterPlan::from_v(&op.v);
         let which = op.a.rem_euclid(12);
         let total = self.slots[si].model.e.len();
-        let fc = self.fctx(si, op);
+        let mut fc = self.fctx(si, op);
+        fc.toggles = true;
         let m = self.slots[si].map.as_mut().unwrap();
+        // elements touched by a mutating iterator are recorded by the closure itself: adaptors such as
+        // nth/count/last run it on elements they do not hand out
+        let touched: std::cell::RefCell<Vec<Item>> = std::cell::RefCell::new(Vec::new());
+        let tch = &touched;
         let out = self.ctx.call(op, || match which {
             0 => {
                 let it = m.iter().map(|(k, v)| kv_item(k, v));
@@ -58,6 +63,7 @@ impl<K: KeyT, V: ValT> MapWorld<K, V> {
                 m.iter_mut().map(|(k, v)| {
                     let r = kv_item(k, v);
                     v.set(v.val() ^ TOGGLE);
+                    tch.borrow_mut().push(r);
                     r
                 }),
                 total,
@@ -70,6 +76,7 @@ impl<K: KeyT, V: ValT> MapWorld<K, V> {
                 m.values_mut().map(|v| {
                     let r = v_item(v);
                     v.set(v.val() ^ TOGGLE);
+                    tch.borrow_mut().push(r);
                     r
                 }),
                 total,
@@ -81,6 +88,7 @@ impl<K: KeyT, V: ValT> MapWorld<K, V> {
                 (&mut *m).into_iter().map(|(k, v)| {
                     let r = kv_item(k, v);
                     v.set(v.val() ^ TOGGLE);
+                    tch.borrow_mut().push(r);
                     r
                 }),
                 total,
@@ -93,6 +101,7 @@ impl<K: KeyT, V: ValT> MapWorld<K, V> {
             10 => drive(hashbrown::hash_map::IterMut::<K, V>::default().map(|(k, v)| kv_item(k, v)), 0, &plan, None),
             _ => drive(hashbrown::hash_map::ValuesMut::<K, V>::default().map(|v| v_item(v)), 0, &plan, None),
         });
+        let touched = touched.into_inner();
         if which >= 7 {
             sim().probe(Probe::IterDefault);
         }
@@ -117,7 +126,7 @@ impl<K: KeyT, V: ValT> MapWorld<K, V> {
         }
         if mutating {
             // every visited entry was toggled once
-            let visited: Vec<Item> = log.head.iter().chain(log.tail.iter()).copied().collect();
+            let visited: Vec<Item> = touched.clone();
             let model = &mut self.slots[si].model;
             let mut done = vec![false; model.e.len()];
             for it in visited {
